@@ -727,6 +727,24 @@ pub fn judged_signature<C: Serialize>(sub: &str, case: &C, judge: impl FnOnce() 
 pub fn judged_result<C: Serialize>(sub: &str, case: &C, judge: impl FnOnce() -> Judged) -> CaseResult {
     let j = judged(sub, case, judge);
     JUDGED.with(|c| *c.borrow_mut() = None);
+    if std::env::var_os("VFW_SURVEY").is_some() {
+        // development aid: list every violated claim and carry on (never used by ./check)
+        for f in &j.findings {
+            eprintln!("SURVEY {sub} sig={:?} {}", f.sig, truncate(&f.msg.replace('\n', " "), 420));
+            // keep one (small) example case per signature
+            if let (Some(sig), Ok(dir)) = (&f.sig, std::env::var("VFW_SURVEY")) {
+                let name: String = sig.chars().map(|c| if c.is_ascii_alphanumeric() || c == '-' || c == '_' { c } else { '_' }).collect();
+                let path = std::path::Path::new(&dir).join(format!("{name}.json"));
+                let text = serde_json::to_string_pretty(case).unwrap_or_default();
+                let smaller = std::fs::metadata(&path).map(|m| (text.len() as u64) < m.len()).unwrap_or(true);
+                if std::path::Path::new(&dir).is_dir() && smaller {
+                    let _ = std::fs::write(&path, &text);
+                    let _ = std::fs::write(path.with_extension("txt"), &f.msg);
+                }
+            }
+        }
+        return j.result;
+    }
     match j.findings.iter().find(|f| f.sig.is_none()).or(j.findings.first()) {
         None => j.result,
         Some(f) => {
